@@ -457,6 +457,9 @@ def judge(spec, fault, cont, r, fresh, unrel):
                 fails.append(("exports_faulty_module:" + tag, "a new parent containing the ill-formed module was exported"))
         elif circ and not orig_circ:
             fails.append(("spurious_circular_dependency:" + tag, "later call reports %r, the original error was %r" % (r.get("cont_line"), r.get("first_line"))))
+        elif cont == "parent_of_offender" and r.get("cont") == "raised" and r.get("first_line") and r["first_line"] not in (r.get("cont_msg") or r.get("cont_line") or ""):
+            # the module that failed is asked for again through a new, sound parent: what is wrong with it is still what was reported
+            fails.append(("new_parent_reports_different_error:" + tag, "a new parent of the module that failed reports %r, the original error was %r" % (r.get("cont_line"), r.get("first_line"))))
     elif cont == "edit_parent":
         if r.get("cont") == "returned":
             ref = fresh.get("edit_parent")
